@@ -34,12 +34,32 @@ func ParserLanguage() []*Grammar {
 		{"P-nullmid", "s = A n B ; n = m m ; m = M | @empty", "reject"},
 		{"P-nullchain", "s = a X ; a = b ; b = c ; c = C | @empty", "accept"},
 		{"P-palin", "s = A s A | B", "accept"},
+		{"P-paren", "s = e ; e = LP e RP | NUM", "accept"},
+		{"P-adjlists", "s = A+ B* C", "accept"},
+		{"P-adjlists2", "s = x+ y* Z ; x = A ; y = B", "accept"},
+		{"P-adjlists3", "s = g B* D ; g = LB @list(A,COMMA) RB", "accept"},
+		{"P-adjfilter", "s = A+ B*! C", "accept"},
+		{"P-adjopt", "s = A+ @list(B,COMMA)? C", "accept"},
 	}
 	var out []*Grammar
 	for _, s := range src {
 		g := MustGrammar(s[0], s[1])
 		g.Expect = s[2]
 		out = append(out, g)
+	}
+	return out
+}
+
+// WithNaming returns copies whose rule names sort before all token names
+// (lox sorts grammar symbols by name in several places).
+func WithNaming(gs []*Grammar) []*Grammar {
+	var out []*Grammar
+	for _, g := range gs {
+		c := MustGrammar(g.Name+"~B", g.Src)
+		c.Expect = g.Expect
+		c.OnBounds = g.OnBounds
+		c.Naming = "B"
+		out = append(out, c)
 	}
 	return out
 }
@@ -88,6 +108,9 @@ func ParserPrecedence() []*Grammar {
 		mk("O-L7L3", L(7), L(3)),
 		mk("O-L1Lmax", L(1), L(9223372036854775807)),
 		MustGrammar("O-unary", "e = e OPA e @left(1) | e OPB e @left(2) | OPA e | NUM"),
+		// two expression rules using the same operator tokens at different levels
+		MustGrammar("O-tworules", "s = e | COLON t ; e = e OPA e @left(1) | e OPB e @left(2) | LP e RP | NUM ; t = t OPB t @left(1) | t OPA t @left(2) | LP t RP | NUM"),
+		MustGrammar("O-tworules2", "s = e SEMI t ; e = e OPA e @right(2) | e OPB e @left(1) | NUM ; t = t OPA t @left(1) | t OPB t @left(2) | ID"),
 	}
 }
 
@@ -118,6 +141,10 @@ func ParserRecovery() []*Grammar {
 		{"E-listsep", "s = @list(x,COMMA) ; x = A | @error"},
 		{"E-startonly", "s = @error"},
 		{"E-after", "s = A b ; b = B | @error C"},
+		{"E-merged-eof", "s = TA aa TX | TB aa ; aa = TC | @error"},
+		{"E-merged-eof2", "s = TA aa | TB aa TY ; aa = @error"},
+		{"E-merged3", "s = TA aa TX | TB aa TY | TC aa ; aa = bb ; bb = TD | @error"},
+		{"E-nested", "s = LB t RB | LB @error RB ; t = A s | A"},
 	}
 	var out []*Grammar
 	for _, s := range src {
@@ -156,6 +183,9 @@ func LexGreedy() []*LexSpec {
 		{"L-ws", "NUM = [0-9]+\nID = [a-z_][a-z0-9_]*\n@frag [ \\t\\n]+ @discard"},
 		{"L-esc", "A = '\\n'\nB = '\\t\\\\'\nC = [\\n\\-\\\\]+\nD = '\\x41\\u00e9'"},
 		{"L-dashcls", "A = [a\\-z]+\nB = [b-y]"},
+		{"L-loopstart", "A = 'x'* 'y'\nB = 'z'"},
+		{"L-loopstart2", "A = ('a'|'b')* 'c'"},
+		{"L-nul", "S = '\"' ~[\"]* '\"'\nW = [a-z]+\nN = '\\x00' '!'\nANY = ."},
 	})
 }
 
@@ -172,6 +202,11 @@ func LexModes() []*LexSpec {
 		{"L-act-discardpop", "A = 'a' @push_mode(M)\n@mode M {\nB = 'b'\n@frag 'd' @discard @pop_mode\n}"},
 		{"L-act-popdiscard", "A = 'a' @push_mode(M)\n@mode M {\nB = 'b'\n@frag 'd' @pop_mode @discard\n}"},
 		{"L-act-fragpush", "A = 'a'\n@frag 'k' @push_mode(M)\n@mode M {\nB = 'b' @pop_mode\n}"},
+		{"L-act3-dpp", "A = 'a' @push_mode(X)\n@mode X {\nB = 'b'\n@frag '!' @discard @pop_mode @push_mode(Y)\n}\n@mode Y {\nC = 'c' @pop_mode\nD = 'd'\n}"},
+		{"L-act3-pdp", "A = 'a' @push_mode(X)\n@mode X {\nB = 'b'\n@frag '!' @pop_mode @discard @push_mode(Y)\n}\n@mode Y {\nC = 'c' @pop_mode\nD = 'd'\n}"},
+		{"L-act3-epp", "A = 'a' @push_mode(X)\nEX = 'x'\n@mode X {\nB = 'b'\n@frag '!' @emit(EX) @pop_mode @push_mode(Y)\n}\n@mode Y {\nC = 'c' @pop_mode\nD = 'd'\n}"},
+		{"L-act3-dpush2", "A = 'a'\n@frag '!' @discard @push_mode(X) @push_mode(Y)\n@mode X {\nB = 'b' @pop_mode\n}\n@mode Y {\nC = 'c' @pop_mode\n}"},
+		{"L-act3-tok", "A = 'a' @push_mode(X) @push_mode(Y) @pop_mode\n@mode X {\nB = 'b' @pop_mode\n}\n@mode Y {\nC = 'c' @pop_mode\n}"},
 		{"L-acc", "@frag '\\'' @push_mode(Lit)\nID = [a-z]+\n@mode Lit {\nLITERAL = '\\'' @pop_mode\n@frag '\\\\' [\\\\'n]\n@frag ~[\\\\\\n']\n}"},
 	})
 }
@@ -207,4 +242,37 @@ func LexAccount() []*LexSpec {
 		{"L-accum-eof", "A = 'a'\n@frag 'k' 'l'"},
 		{"L-accum-null", "A = 'a'\n@frag 'k'*"},
 	})
+}
+
+// LexNumbering: items for C19 (modes, @external, @emit-only tokens, tokens the
+// parser never mentions, two files).
+func LexNumbering() []*LexSpec {
+	out := lexItems([][2]string{
+		{"N-plain", "A = 'a'\nB = [b-c]+\nC = 'c' 'd'"},
+		{"N-modes", "A = 'a' @push_mode(M)\n@mode M {\nB = 'b'\nC = 'c' @pop_mode\n}\nD = 'd'\n@mode N {\nE = 'e'\n}\nF = 'f'"},
+		{"N-external", "A = 'a'\n@external INDENT DEDENT\nB = 'b'\n@mode M {\nC = 'c'\n@external INNER\n}\n@external LAST"},
+		{"N-emitonly", "A = 'a'\nHIDDEN = 'zzz'\n@frag 'q' @emit(HIDDEN)\nB = 'b'"},
+	})
+	two := MustLexSpec("N-twofiles", "A = 'a'\nB = 'b'", "C = 'c'\n@mode M {\nD = 'd'\n}")
+	out = append(out, two)
+	return out
+}
+
+// ParserLanguageAll: the language corpus plus renamed variants (all of them
+// when full, else the recursive ones, where the order in which lox visits
+// symbols matters most).
+func ParserLanguageAll(full bool) []*Grammar {
+	base := ParserLanguage()
+	var pick []*Grammar
+	for _, g := range base {
+		if full {
+			pick = append(pick, g)
+			continue
+		}
+		switch g.Name {
+		case "P-rec-left", "P-rec-right", "P-rec-mid", "P-expr", "P-lalr", "P-palin", "P-paren", "P-null-list", "P-null-dup", "P-nestsugar", "P-listopt":
+			pick = append(pick, g)
+		}
+	}
+	return append(base, WithNaming(pick)...)
 }
